@@ -82,6 +82,10 @@ pub struct LinkCfg {
     /// socket is gone, not just one half).
     #[serde(default)]
     pub fault_kills_both: bool,
+    /// A read may run across several fd-bearing segments (Linux stops after the first one; other
+    /// transports behind the public `Socket` trait need not).
+    #[serde(default)]
+    pub merge_fd_segments: bool,
 }
 
 impl Default for LinkCfg {
@@ -99,6 +103,7 @@ impl Default for LinkCfg {
             fail_write_call: None,
             yield_after_io: false,
             fault_kills_both: false,
+            merge_fd_segments: false,
         }
     }
 }
@@ -312,7 +317,7 @@ impl Link {
                 break;
             }
             avail += c.data.len();
-            if !c.fds.is_empty() {
+            if !c.fds.is_empty() && !st.cfg.merge_fd_segments {
                 break;
             }
         }
